@@ -1,6 +1,7 @@
 import Rbp.Model.VarInt
 import Rbp.Proofs.Record
 import Rbp.Proofs.Layout
+import Rbp.Proofs.BlkName
 /-!
 # C03 — a block is read from the file and offset its index record names, wherever it is
 -/
@@ -64,6 +65,12 @@ theorem layout_independent_run (o : Opts) (k₁ k₂ : Option W.Bytes) (kvs₁ k
                view coin k₂ (fs₂.filterMap fun f => (parseBlkIndex f.name).map fun n => (n, f)) ld₂.trimmed h) :
     (run o k₁ kvs₁ fs₁).visible = (run o k₂ kvs₂ fs₂).visible :=
   run_layout_independent o k₁ k₂ kvs₁ kvs₂ fs₁ fs₂ coin ld₁ ld₂ hc hl₁ hl₂ hmax hk₁ hk₂ hn₁ hn₂ hv
+
+/-- the zero-padding of file names is immaterial: `blk` + any number of zeros + the decimal number + `.dat` parses to that
+    number, for every u64 file number (Core pads to five digits; `blk7.dat`, `blk00007.dat`, `blk0000000007.dat` are one file) -/
+theorem blkname_roundtrip (n k : Nat) (hn : n < 2 ^ 64) :
+    parseBlkIndex ("blk" ++ String.ofList (List.replicate k '0') ++ toString n ++ ".dat") = some n :=
+  Run.blkname_roundtrip n k hn
 
 /-- keys that do not start with `b` never enter the table (`f`, `l`, `F`, `R`, … records are ignored) -/
 theorem foreign_keys_ignored (k v : W.Bytes) (b : UInt8) (rest : W.Bytes) (hk : k = b :: rest) (hb : b ≠ 0x62)
